@@ -346,7 +346,7 @@ func registerConstModel(e *Engine) {
 			if op == token.SHL {
 				v = IntMul(xt, p)
 			} else {
-				v = mk(SInt, 0, "(div %s %s)", xt.S, p.S) // floor division = arithmetic shift
+				v = IntFloorDivPos(xt, p) // floor division = arithmetic shift
 				if xt.Const {
 					v = IntT(new(big.Int).Rsh(xt.CI, uint(n)))
 				}
